@@ -129,6 +129,32 @@ Proof.
   apply (no_replay_of_closed seg rp_Sg (start rp_w0) 12 rp_closed_seg); [left; reflexivity|vm_compute; reflexivity].
 Qed.
 
+(* a schedule of the harness that ends with entries of request 2 only: those entries are steps of request 2 *)
+Lemma seg_is_run_rep w i : exists k, seg w i = run w (repeat i (S k)).
+Proof.
+  unfold seg. destruct (burst_is_run (fuel_of (step w i) i) (step w i) i) as [k Hk].
+  exists k. simpl. exact Hk.
+Qed.
+
+Lemma segs_rep i k : forall w, exists n, fold_left seg (repeat i k) w = run w (repeat i n).
+Proof.
+  induction k as [|k IH]; intros w; simpl; [exists 0%nat; reflexivity|].
+  destruct (seg_is_run_rep w i) as [a Ha]. destruct (IH (seg w i)) as [n Hn].
+  exists (S a + n)%nat. rewrite Hn, Ha. symmetry. apply run_repeat_add.
+Qed.
+
+Theorem u2f_no_replay_replayed_schedule s1 k :
+  Forall (fun i => (i < 2)%nat) s1 ->
+  let w1 := run_seg rp_w0 s1 in
+  answered w1 0 = true -> answered w1 1 = true ->
+  let w2 := run_seg rp_w0 (s1 ++ repeat 2%nat k) in
+  ~ (resp_at w2 1 = Some 200 /\ resp_at w2 2 = Some 200).
+Proof.
+  intros Hs w1 A0 A1 w2. unfold w2, run_seg. rewrite fold_left_app.
+  destruct (segs_rep 2 k (fold_left seg s1 (start rp_w0))) as [n E]. rewrite E.
+  apply (u2f_no_replay_after_overlap_seg s1 n Hs A0 A1).
+Qed.
+
 (* non-vacuity: the overlapping pair can both be answered 200, the replay is then refused; and a
    presentation after the pair IS honoured when the first one was not made with that answer *)
 Example rp_pair_both_200 :
